@@ -561,6 +561,8 @@ def _rows(rep, ex: Explorer, which=("single", "worker", "multi", "manager")):
                 if ev.kind == "loop" and not Q and ev.fam == ("members", ("keys", "Q")):
                     for case in ev.cases:
                         _check_query_call(rep, site, list(iter_events(case.events)), ev.evar, True)
+            if p.outcome[0] == "raise":
+                _check_escape(rep, site, p)
             if p.outcome[0] == "return":
                 rv = p.outcome[1]
                 if isinstance(rv, Ref):
@@ -587,6 +589,8 @@ def _rows(rep, ex: Explorer, which=("single", "worker", "multi", "manager")):
             for k, v in p.decisions:
                 if k[0] == "delegate-outcome":
                     outcome = v
+            if p.outcome[0] == "raise":
+                _check_escape(rep, site, p)
             sets = [ev for ev, Q in iter_events(p.events) if ev.kind == "dict.set"]
             for ev in sets:
                 n += 1
@@ -604,6 +608,16 @@ def _rows(rep, ex: Explorer, which=("single", "worker", "multi", "manager")):
     if "manager" in which:
         _manager_rows(rep, ex, stats)
     return stats
+
+
+def _check_escape(rep, site, p):
+    """The only exceptions that leave a query wrapper are the operator's own (non-expiry) errors: the budget arithmetic
+    around the call (creating the deadline, reading the clock) is total."""
+    exc = p.outcome[1]
+    origin = getattr(exc, "origin", None)
+    own = isinstance(origin, tuple) and origin and origin[0] == "delegate" and getattr(exc, "cls", None) != "TimeoutError"
+    rep.check(own, "TIMEOUT.row", site, "escaping exception", "nothing but an error of the operator itself escapes the wrapper: budget handling never raises",
+              extracted=f"{exc!r} from {origin!r}"[:120], required="only the operator's own non-expiry error", function=site)
 
 
 def _check_row(rep, site, ev, case, evar, what):
@@ -802,6 +816,7 @@ def _manager_rows(rep, ex: Explorer, stats):
         # ROWS.columns: which component of the result entry lands in which column of the report
         want = {"index": lambda b: ElemV(b, "key"), "result": lambda b: Sym(("answer", b), "bool"), "inference_timed_out": lambda b: Sym(("timedout", b), "bool")}
         cols = {}
+        rowposs = set()
         for ev, Q in evs:
             if ev.kind == "setitem.unknown" and Q and Q[-1][0].fam == QF and isinstance(ev.key, TupleV) and len(ev.key.items) == 2 and isinstance(ev.key.items[1], Const):
                 b = Q[-1][0].evar
@@ -814,7 +829,9 @@ def _manager_rows(rep, ex: Explorer, stats):
                 if col == "inference_time":
                     rep.check(F.mentions(desc(ev.value), {("time", b)}), "ROWS.columns", f"{site}:{ev.node.lineno}", "column inference_time", "the time column is derived from the time of that query", extracted=repr(ev.value)[:100], required="time of the query", function=site)
                 okpos = isinstance(rowpos, LinV) and rowpos.lin == (((("pos", b, QF), 1),), 0)
-                rep.check(okpos, "ROWS.columns", f"{site}:{ev.node.lineno}", f"row of column {col}", "all cells of a query go to the row of its position in the submitted order", extracted=repr(rowpos), required="row = position of the query", function=site)
+                rep.check(okpos, "ROWS.order", f"{site}:{ev.node.lineno}", f"row of column {col}", "all cells of a query go to the row of its position in the submitted order", extracted=repr(rowpos), required="row = position of the query", function=site)
+                rowposs.add(rowpos)
+        rep.check(len(rowposs) == 1, "ROWS.columns", site, "one row per query", "all cells of a query land in one and the same row", extracted=f"{len(rowposs)} different row positions", required="one", function=site)
         for col in ("index", "result", "inference_timed_out", "preprocessing_timed_out"):
             rep.check(col in cols, "ROWS.columns", site, f"column {col} present", f"the report has the column {col}", extracted=str(sorted(cols)), required=col, function=site)
         if "preprocessing_timed_out" in cols:
